@@ -5,7 +5,9 @@ from typing import Dict, List, Union
 
 from vf.harness import KIND_TYPES, Scalar, pick
 
-META_FILES = {d: "/repo/jsonschema/schemas/draft%d.json" % d for d in (3, 4, 6, 7)}
+from vf.harness import REPO
+
+META_FILES = {d: REPO + "/jsonschema/schemas/draft%d.json" % d for d in (3, 4, 6, 7)}
 _META = {}
 
 
